@@ -259,6 +259,14 @@ def q_c14_gating(bodies):
                     problems.append(("the store is told that a document is closed exactly when its last handle is released, and close reports that", "sat", "path=%s store.close_replica calls=%d ret=%s" % (pc[:3], len(sc), ret[:30])))
         except (Inconclusive, ValueError, AssertionError, KeyError, IndexError, RecursionError) as e:
             problems.append(("Actor::close can be followed", "inconclusive", "%r" % (e,)))
+    # ---------------- D. who tells the store that a document is closed (MIR call graph of the actor module)
+    callers = sorted(set(n for n, bs in bodies.items() if n.startswith("actor::") for b in bs for blk in b.blocks.values() for st in blk
+                         if re.search(r"= store::fs::Store::close_replica\(", st)))
+    stats["cases"] += 1
+    extra = [c for c in callers if not re.search(r"^actor::<impl at [^>]*>::(close|close_all)$", c)]   # close_all drains every open state (shutdown)
+    if extra:
+        problems.append(("the store is told that a document is closed only by Actor::close, i.e. only together with the release of the LAST handle (otherwise a document that is still open in the actor can be removed and re-created under it)", "sat",
+                         "Store::close_replica is also called from %s" % [c.split(">::", 1)[-1] for c in extra][:3]))
     problems.sort(key=lambda p: p[1] == "inconclusive")
     return dict(name=name, property="C14", verdict=_verdict(problems), detail="feasible paths=%d, handlers recognised=%s; problems: %s" % (stats["cases"], sorted(stats["seen"]), problems[:4] or "none"),
                 functions=sorted(funcs) + ["std HashMap get_mut / contains_key, Replica / Store methods (payloads: logged), futures answered Ready"], queries=stats["nq"], cases=stats["cases"], witness="c14gate",
